@@ -26,3 +26,14 @@ def petri_net_notices(dr):
         elif op[0] in ("finish", "junk") and rec["net_notices"]:
             return "rejected call %r produced a net-updated notice" % (op,)
     return None
+
+
+def stale_oracle(dr):
+    """every run: the scheduler asks the variable access function that was registered LAST (the
+    harness replaces it by a fresh wrapper before later API calls of about half of the cases)"""
+    run = dr.get("run")
+    if run is None or not getattr(run, "stale", None):
+        return None
+    g, cur, name = run.stale[0]
+    return ("variable %r was read through access function #%d although #%d had been registered since "
+            "(%d stale reads)" % (name, g, cur, len(run.stale)))
